@@ -25,11 +25,14 @@ MONOTONE_TRUE = ("._cancel_called", ".cancel_called")
 
 # ----------------------------------------------------------------------------- aliases
 def local_aliases(fn: ast.AST) -> dict[str, ast.AST]:
-    """single-assignment locals bound to `current_task()` or to an attribute chain that the
-    function never rebinds (`waiters = self._waiters`)"""
+    """single-assignment locals bound to `current_task()` or to an attribute chain (`waiters = self._waiters`, also transitively
+    and in the chained form `self._x = x = <expr>`).  The attribute may be rebound by the function itself only *after* the last
+    use of the alias (`host = self._host_task ... finally: self._host_task = None`); `del alias` does not count as a rebinding."""
     counts: dict[str, int] = {}
     rhs: dict[str, ast.AST | None] = {}
-    stored_attrs: set[str] = set()
+    defstmt: dict[str, ast.AST] = {}
+    attr_stores: dict[str, list] = {}          # attr -> [(lineno, statement)]
+    last_load: dict[str, int] = {}
     args = fn.args
     params = {a.arg for a in args.posonlyargs + args.args + args.kwonlyargs}
     if args.vararg:
@@ -39,6 +42,8 @@ def local_aliases(fn: ast.AST) -> dict[str, ast.AST]:
     for n in own_walk(fn):
         tgts = []
         val = None
+        if isinstance(n, ast.Name) and isinstance(n.ctx, ast.Load):
+            last_load[n.id] = max(last_load.get(n.id, 0), getattr(n, "lineno", 0))
         if isinstance(n, ast.Assign):
             tgts, val = n.targets, n.value
         elif isinstance(n, ast.AnnAssign) and n.value is not None:
@@ -54,14 +59,47 @@ def local_aliases(fn: ast.AST) -> dict[str, ast.AST]:
         elif isinstance(n, ast.ExceptHandler) and n.name:
             counts[n.name] = counts.get(n.name, 0) + 2
         elif isinstance(n, ast.Delete):
-            tgts = n.targets
+            for t in n.targets:
+                for x in ast.walk(t):
+                    if isinstance(x, ast.Attribute) and isinstance(x.ctx, ast.Del):
+                        attr_stores.setdefault(x.attr, []).append((getattr(n, "lineno", 0), n))
+            continue
         for t in tgts:
             for x in ast.walk(t):
                 if isinstance(x, ast.Name) and isinstance(x.ctx, (ast.Store, ast.Del)):
                     counts[x.id] = counts.get(x.id, 0) + 1
-                    rhs[x.id] = val if (isinstance(t, ast.Name) and len(tgts) == 1) else None
+                    v = None
+                    if isinstance(t, ast.Name):
+                        if len(tgts) == 1:
+                            v = val
+                        elif isinstance(n, ast.Assign):
+                            # `self._x = x = <expr>`: afterwards x is the attribute
+                            others = [o for o in tgts if o is not t]
+                            if len(others) == 1 and isinstance(others[0], ast.Attribute):
+                                v = others[0]
+                    rhs[x.id] = v
+                    defstmt[x.id] = n
                 elif isinstance(x, ast.Attribute) and isinstance(x.ctx, (ast.Store, ast.Del)):
-                    stored_attrs.add(x.attr)
+                    attr_stores.setdefault(x.attr, []).append((getattr(n, "lineno", 0), n))
+
+    def in_loop(st):
+        cur = getattr(st, "_parent", None)
+        while cur is not None and cur is not fn:
+            if isinstance(cur, (ast.While, ast.For, ast.AsyncFor)):
+                return True
+            cur = getattr(cur, "_parent", None)
+        return False
+
+    def attrs_stable(k, chain_attrs):
+        for a_ in chain_attrs:
+            for ln, st in attr_stores.get(a_, []):
+                if st is defstmt.get(k):
+                    continue
+                if ln > last_load.get(k, 0) and not in_loop(defstmt.get(k)):
+                    continue
+                return False
+        return True
+
     out = {}
     for k, c in counts.items():
         v = rhs.get(k)
@@ -75,9 +113,39 @@ def local_aliases(fn: ast.AST) -> dict[str, ast.AST]:
             base = v
             while isinstance(base, ast.Attribute):
                 base = base.value
-            if isinstance(base, ast.Name) and counts.get(base.id, 0) == 0 and not (chain_attrs & stored_attrs):
-                out[k] = v
+            if isinstance(base, ast.Name) and counts.get(base.id, 0) == 0 and attrs_stable(k, chain_attrs):
+                out[k] = _load(v)
+    # aliases of aliases (`state = self._state; receivers = state.waiting_receivers`): resolve to the full chain
+    changed = True
+    rounds = 0
+    while changed and rounds < 5:
+        changed = False
+        rounds += 1
+        for k, c in counts.items():
+            if k in out or c != 1 or k in params:
+                continue
+            v = rhs.get(k)
+            if v is None:
+                continue
+            v = strip_cast(v)
+            if isinstance(v, (ast.Attribute, ast.Name)) and not contains(v, (ast.Call, ast.Subscript)):
+                chain_attrs = {x.attr for x in ast.walk(v) if isinstance(x, ast.Attribute)}
+                base = v
+                while isinstance(base, ast.Attribute):
+                    base = base.value
+                if isinstance(base, ast.Name) and base.id in out and attrs_stable(k, chain_attrs) and isinstance(out[base.id], ast.Attribute):
+                    out[k] = subst(_load(v), {base.id: out[base.id]})
+                    changed = True
     return out
+
+
+def _load(e):
+    """copy of an expression with every context set to Load (an assignment target reused as a value)"""
+    e = clone(e)
+    for x in ast.walk(e):
+        if hasattr(x, "ctx"):
+            x.ctx = ast.Load()
+    return e
 
 
 class _Subst(ast.NodeTransformer):
@@ -114,6 +182,8 @@ def atom(e: ast.AST, aliases=None) -> tuple[str, bool]:
         l, op, r = e.left, e.ops[0], e.comparators[0]
         # emptiness tests written with len(): `len(x) == 0` is `not x`, `len(x) > 0` / `!= 0` / `>= 1` is `x`
         t = _len_truth(l, op, r)
+        if t is None:
+            t = _int_truth(l, op, r)
         if t is not None:
             return (ast.unparse(t[0]), pol if t[1] else not pol)
         L, R = ast.unparse(l), ast.unparse(r)
@@ -166,6 +236,29 @@ def _len_truth(l, op, r):
         return (x, False)
     if isinstance(op, ast.LtE) and c == 0:
         return (x, False)
+    return None
+
+
+# attributes that hold integers (counters): for those `x == 0` is `not x` and `x != 0` / `x > 0` is `x`
+INT_ATTRS = {"open_send_channels", "open_receive_channels", "_value", "_leases", "_pending_uncancellations", "_currsize", "_hits", "_misses"}
+
+
+def _int_truth(l, op, r):
+    def is_int_attr(x):
+        return isinstance(x, ast.Attribute) and x.attr in INT_ATTRS
+
+    def zero(x):
+        return isinstance(x, ast.Constant) and x.value == 0 and not isinstance(x.value, bool)
+
+    flip = {ast.Lt: ast.Gt, ast.Gt: ast.Lt, ast.Eq: ast.Eq, ast.NotEq: ast.NotEq}
+    if is_int_attr(r) and zero(l) and type(op) in flip:
+        l, r, op = r, l, flip[type(op)]()
+    if not (is_int_attr(l) and zero(r)):
+        return None
+    if isinstance(op, ast.Eq):
+        return (l, False)
+    if isinstance(op, (ast.NotEq, ast.Gt)):
+        return (l, True)
     return None
 
 
